@@ -1,6 +1,7 @@
 import Ptk.Proto
 import Ptk.Model.C20
 import Ptk.Model.C20Chain
+import Ptk.Model.C20Lock
 open Ptk Ptk.Py Ptk.Proto Ptk.C20
 
 /-! Line-protocol driver for the C20 models.
@@ -52,6 +53,51 @@ def parseOp : List String → Option Op
 structure DSt where
   s : St := {}
   c : C20Chain.St := {}
+  l : C20Lock.St := {}
+
+/-! lock model glue: threads 0..3 -/
+namespace LockDrv
+open C20Lock
+
+def encPc : Pc → String
+  | .idle => "i"
+  | .want _ => "w"
+  | .locked _ => "l"
+  | .assign _ _ _ => "a"
+  | .putting _ => "p"
+  | .releasing => "r"
+
+def tids : List Nat := [0, 1, 2, 3]
+
+def encL (s : C20Lock.St) : String :=
+  let owner := match s.owner with | none => "N" | some t => toString t
+  s!"buf={encStr (cat s.buffer)} q={encList encStr s.queue} out={encStr s.out} owner={owner} pcs={"".intercalate (tids.map fun t => encPc (s.pc t))} acq={encList (fun p => toString p.1) s.acquired}"
+
+/-- after a release the lock goes to a waiting thread (the schedules keep at most one waiting) -/
+def grant (s : C20Lock.St) : C20Lock.St := tids.foldl (fun s t => C20Lock.step s (.acq t)) s
+
+def stepLine (s : C20Lock.St) : List String → Option (C20Lock.St × String)
+  | ["linit"] => let n : C20Lock.St := {}; some (n, encL n)
+  | ["lcall", t, "w", d] => do
+    let t ← decNat t
+    let d ← decStr d
+    let s' := C20Lock.step (C20Lock.step s (.call t (.write d))) (.acq t)
+    pure (s', encL s')
+  | ["lcall", t, "f"] => do
+    let t ← decNat t
+    let s' := C20Lock.step (C20Lock.step s (.call t .flush)) (.acq t)
+    pure (s', encL s')
+  | ["lbody", t] => do
+    let t ← decNat t
+    let s' := C20Lock.runOps s (C20Lock.body t)
+    pure (s', encL s')
+  | ["lrel", t] => do
+    let t ← decNat t
+    let s' := grant (C20Lock.step s (.rel t))
+    pure (s', encL s')
+  | ["lfl"] => let s' := C20Lock.step s .fl; some (s', encL s')
+  | _ => none
+end LockDrv
 
 def reply (old new : St) : String :=
   let evs := new.log.drop old.log.length
@@ -74,6 +120,10 @@ def stepLine (d : DSt) (toks : List String) : DSt × String :=
     -- per-thread projection of the output of a free running case: the thread's writes, in order
     match strs.mapM decStr with
     | some ws => (d, encStr (cat ws))
+    | none => (d, "bad-op")
+  | "linit" :: _ | "lcall" :: _ | "lbody" :: _ | "lrel" :: _ | "lfl" :: _ =>
+    match LockDrv.stepLine d.l toks with
+    | some (l', r) => ({ d with l := l' }, r)
     | none => (d, "bad-op")
   | "cinit" :: _ | "center" :: _ | "cstep" :: _ | "cstop" :: _ | "cstart" :: _ | "cinval" :: _ =>
     match C20Chain.stepLine d.c toks with
